@@ -129,5 +129,6 @@ def refOps (c : Crv) : PointOps Pt where
   containsPoint x y := containsPoint c.p c.a c.b x y
   mkPoint x y := some (x, y)
   fromAffine A := A
+  isInfObj A := A.isNone
 
 end Ecdsa.Affine
